@@ -49,6 +49,10 @@ def run_group(case, scratch=None, keep=False):
         C.make_tree(scratch.tree, case["tree"])
         cwd = os.path.join(scratch.tree, case["cwd"]) if case.get("cwd") else scratch.tree
         args = list(case.get("args", [])) + list(case.get("roots", []))
+        if case.get("stdin_roots"):
+            # the input paths come on standard input instead of the command line
+            args = list(case.get("args", [])) + ["--stdin"]
+            case = dict(case, stdin="\n".join(case.get("roots", [])) + "\n")
         obs = {"runs": []}
         for _ in range(case.get("repeat", 1)):
             rc, out, err, to = C.fclones(["group"] + args + ["-f", "json"], scratch, cwd=cwd,
